@@ -92,6 +92,14 @@ func c06Plan(tier string) []PlanItem {
 	// the vacancy its own expired record leaves
 	s = scnTerms("health-stepdown-then-vacancy-K1", K1, []string{"ok", "bad", "bad", "bad", "ok"}, 3, "A")
 	add(s, d)
+	// the candidate's run ended through its Start context (no Stop) and it was started
+	// again while the leader still held the key
+	s = scnFailoverDel("failover-del2-K1-candidate-ctx-restart", K1, "A", "B")
+	s.Script = append(s.Script,
+		Item{At: 1*s.H + 20*ms, Actor: "lifeB", Do: "cancelctx", Inst: "B", Fixed: true},
+		Item{At: 1*s.H + 60*ms, Actor: "lifeB", Do: "start", Inst: "B", Fixed: true})
+	s.AllowDrop = true
+	add(s, d)
 	// the candidate's watch channel closes before the vacancy
 	s = scnFailoverDel("failover-del2-K1-watch-closed", K1, "A", "B")
 	s.Script = append(s.Script, Item{At: 1*s.H + 11*ms, Actor: "chaos", Do: "closewatch", Inst: "B"})
